@@ -498,6 +498,11 @@ func (f *Federation) EventStream(stream Federation_EventStreamServer) (err error
 				}
 
 				ack := f.eventStreamHandler(sess, in)
+				if ack == nil {
+					// an event without Subscribe / Unsubscribe / Message: reject it instead of dereferencing nil below
+					errCh <- status.Errorf(codes.InvalidArgument, "EventStream: event %d carries no payload", in.Id)
+					return
+				}
 
 				err = stream.Send(ack)
 				if err != nil {
